@@ -41,6 +41,7 @@ pub fn sim_plan(rng: &mut Rng, faulty: bool) -> SimPlan {
         epoch_phase_ns: rng.below(SEC),
         max_steps: 200_000,
         stall_after_recv_permille: after_recv,
+        step_cost_ns: 0,
     }
 }
 
@@ -106,6 +107,7 @@ pub fn roomy_cfg(rng: &mut Rng, flavor: Flavor) -> Cfg {
         decoy: false,
         reentrant_cb: false,
         tracing_on: false,
+        cleanup_ns: 0,
     }
 }
 
@@ -360,6 +362,8 @@ pub struct PProfile {
     pub get_mut_heavy: bool,
     /// async flavour on per-task executors only; % of removes / waits whose future is cancelled
     pub cancel_pct: u64,
+    /// % of barriers after which the application resets the metrics itself (metrics.clear())
+    pub metrics_reset_pct: u64,
     /// every handle is dropped the moment the clients are done - no quiescence first, so items
     /// may still be buffered
     pub drop_busy: bool,
@@ -406,6 +410,7 @@ impl Default for PProfile {
             get_mut_heavy: false,
             cancel_pct: 0,
             drop_busy: false,
+            metrics_reset_pct: 0,
             hold_close_pct: 0,
             hold_umc_pct: 0,
         }
@@ -429,7 +434,7 @@ fn profile_for_quick(prop: &str) -> PProfile {
     match prop {
         "C01" => PProfile { over_capacity_pct: 85, chaos_umc_pct: 50, chaos_clear_pct: 10, if_present_pct: 12, collide_pct: 5, vstall_pct: 15, hold_umc_pct: 6, ..d },
         "C02" => PProfile { keys: (1, 5), get_mut_write: true, chaos_clear_pct: 25, collide_pct: 30, lookup_pct: 35, validator_pct: 15, wait_pct: 12, ..d },
-        "C06" => PProfile { chaos_clear_pct: 30, over_capacity_pct: 60, ttl_pct: 35, small_buffer_pct: 25, vstall_pct: 20, ..d },
+        "C06" => PProfile { chaos_clear_pct: 30, over_capacity_pct: 60, ttl_pct: 35, small_buffer_pct: 25, vstall_pct: 20, metrics_reset_pct: 12, ..d },
         "C07" => PProfile { clients: (1, 3), keys: (4, 16), over_capacity_pct: 100, lookup_pct: 50, ttl_pct: 5, remove_pct: 5, chaos_umc_pct: 20, ops: (10, 40), collide_pct: 0, exit_only_cb_pct: 10, ..d },
         "C08" => PProfile { chaos_clear_pct: 15, chaos_close_pct: 20, over_capacity_pct: 60, exit_only_cb_pct: 20, ttl_pct: 30, vstall_pct: 20, ..d },
         "C10" => PProfile { wait_pct: 25, chaos_clear_pct: 35, chaos_close_pct: 35, small_buffer_pct: 50, lookup_pct: 10, ops: (3, 12), ..d },
@@ -628,6 +633,9 @@ pub fn gen_p_family(prop: &str, seed: u64, pf: &PProfile) -> Plan {
             }
             if ph + 1 < phases || rng.chance(1, 2) {
                 script.push(Op::Barrier);
+                if ci == 0 && cfg.metrics && pf.metrics_reset_pct > 0 && rng.chance(pf.metrics_reset_pct, 100) {
+                    script.push(Op::MetricsReset);
+                }
             }
         }
         // keep barrier counts aligned
@@ -1067,7 +1075,8 @@ pub fn gen_clear_backlog(prop: &str, seed: u64) -> Plan {
     let mut sim = sim_plan(&mut rng, false);
     // the processor is held back while the backlog builds up
     sim.stalls.push(StallPlan { at_step: 1, task: "processor".into(), for_steps: 100_000, for_ns: 0 });
-    let n = rng.range(6, 40);
+    // mostly a modest backlog; sometimes hundreds of items (beyond any per-batch constant)
+    let n = if rng.chance(3, 10) { rng.range(280, 700) } else { rng.range(6, 40) };
     let universe: Vec<u64> = (0..n.min(12)).map(|i| 500 + i * 7).collect();
     let mut ops: Vec<Op> = Vec::new();
     for i in 0..n {
@@ -1231,6 +1240,28 @@ pub fn gen_plan(prop: &str, seed: u64, variant: u64) -> Plan {
     if matches!(prop, "C03" | "C04" | "C05" | "C10") && variant % 9 == 4 && !matches!(p.cfg.keys, KeyMode::Typed { .. }) && !p.has_tag("tick_events") && !p.has_tag("bulk") && !p.has_tag("huge_ttl") {
         p.cfg.decoy = true;
         p.tags.push("decoy_cache".into());
+    }
+    // a cleanup interval shorter than one sweep takes (time passes while the processor computes)
+    if prop == "C20" && variant % 37 == 9 && p.family == "P" {
+        let mut r = Rng::new(seed ^ 0x71c4);
+        p.cfg.cleanup_ns = *r.pick(&[1u64, 20, 150, 900]);
+        p.cfg.cleanup_ms = 1;
+        p.sim.step_cost_ns = *r.pick(&[10u64, 60, 250, 1000]);
+        p.sim.eager_clock_permille = 0;
+        p.sim.max_steps = 400_000;
+        // with a timer that is always due the processor never idles: no quiescent points in
+        // these plans (no barriers, no final checkpoint) - the final probe alone must complete
+        for c in p.clients.iter_mut() {
+            // (nor sleeps: with the processor spinning the clock only moves by the step cost)
+            c.retain(|o| !matches!(o, Op::Barrier | Op::Sleep { .. } | Op::Jump { .. }));
+        }
+        p.chaos.clear();
+        p.finale = Finale::None;
+        p.tags.push("no_quiesce".into());
+        if !p.has_tag("final_probe") {
+            p.tags.push("final_probe".into());
+        }
+        p.tags.push("tiny_cleanup_interval".into());
     }
     // a tracing subscriber that enables everything (process-global environment the library reads)
     if variant % 6 == 2 {
